@@ -114,6 +114,20 @@ def run_kindtrace(ctx, K, structural=False):
         K.run_tool(ctx, b, ["-n", str(tier_n(ctx, 150, 3000)), "-seed", str(ctx.seed), "-claim", ctx.pid] + (["-structural"] if structural else []), "kinds")
 
 
+def run_sentinel(ctx, K):
+    """Sentinel mini-engine (Sentinel.v): histories of Var/Map/Sentinel operations on the library under both stabilizers,
+    replayed on the model after every operation (values, registration, queued flags, watch-edge halves, which functions ran)"""
+    b = K.go_build(ctx, "sentineltrace")
+    if not b:
+        return
+    cases = os.path.join(ctx.rundir, "cases_%s_sentinel.v" % ctx.pid)
+    rep = K.run_tool(ctx, b, ["-n", str(tier_n(ctx, 150, 3000)), "-len", "30", "-coq", cases, "-coqmax", str(tier_n(ctx, 150, 1500)),
+                              "-seed", str(ctx.seed), "-claim", ctx.pid], "sentinel")
+    if rep:
+        ctx.coq_cases += rep.get("coq_cases", 0)
+        K.run_cases(ctx, cases, "Sentinel.v~sentinel.go, graph.go (watchNode/unwatchNode, sentinel loops of becameNecessaryRecursive and zeroNode, always requeue)")
+
+
 def run_corpus(ctx, K):
     """minimised failures found earlier (corpus/<ID>/*.json with a replayable history) run first"""
     d = os.path.join(VERIF_DIR, "corpus", ctx.pid)
@@ -141,6 +155,8 @@ def run_engine(ctx, K):
         # replacing Var by VarEqual changes no observer value: the handler scenario runs half of its graphs with an
         # equality var (written mid-pass and written back to the held value by an update handler) against plain-Var expectations
         run_parscen(ctx, K, only="writes-from-update-handlers")
+    if ctx.pid in ("C03", "C05"):
+        run_sentinel(ctx, K)
     if ctx.pid in ("C12", "C03"):
         run_parscen(ctx, K)  # vars created inside bind scopes (queued above height 0) written from node functions
     run_engine_parallel(ctx, K)
